@@ -280,21 +280,22 @@ func Exec(prop string, t *Tape, trace bool, f RunFunc) (res Result) {
 	gid := <-gidc
 	wait := time.NewTimer(deadlockGrace) // wall clock only decides WHEN we look; a deadlock is permanent
 	defer wait.Stop()
-	same, last := 0, ""
+	same, last := 0, uint64(0)
 	for {
 		select {
 		case <-done:
 			return
 		case <-wait.C:
 		}
-		st := blockedStack(gid)
-		if st != "" && st == last {
+		blocked, h, body := blockedStack(gid)
+		if blocked && h == last {
 			same++
 		} else {
 			same = 0
 		}
-		last = st
-		if st != "" && same >= 6 {
+		last = h
+		if blocked && same >= 6 {
+			st := string(body)
 			fn, where := libFrame(st)
 			if fn == "" {
 				res = Result{Ctx: ctx, Harness: &HarnessPanic{Val: "the run blocks forever on a lock outside the library", Stack: st}}
@@ -346,33 +347,49 @@ func curGoid() uint64 {
 	return id
 }
 
-// blockedStack returns the stack text of goroutine g if it is waiting for a
-// sync.Mutex / RWMutex, "" otherwise.
-func blockedStack(g uint64) string {
-	buf := make([]byte, 1<<18)
-	for {
-		n := runtime.Stack(buf, true)
-		if n < len(buf) {
-			buf = buf[:n]
-			break
-		}
-		buf = make([]byte, 2*len(buf))
+// The watcher must not disturb what a run measures (C13 compares the live heap before and
+// after a stream): its buffer exists before the first run and a look allocates nothing.
+var watchBuf = make([]byte, 1<<18)
+
+// blockedStack reports whether goroutine g is waiting for a sync.Mutex / RWMutex; if so it
+// returns a hash of its stack (without the header line, which contains the waiting time) and
+// the stack itself as a sub-slice of the watcher's buffer.
+func blockedStack(g uint64) (bool, uint64, []byte) {
+	n := runtime.Stack(watchBuf, true)
+	for n >= len(watchBuf) {
+		watchBuf = make([]byte, 2*len(watchBuf)) // (very many goroutines: never seen; would show up as one allocation)
+		n = runtime.Stack(watchBuf, true)
 	}
-	for _, blk := range strings.Split(string(buf), "\n\n") {
-		head := "goroutine " + strconv.FormatUint(g, 10) + " ["
-		if !strings.HasPrefix(blk, head) {
+	all := watchBuf[:n]
+	var hb [40]byte
+	head := append(strconv.AppendUint(append(hb[:0], "goroutine "...), g, 10), " ["...)
+	for off := 0; off < len(all); {
+		blk := all[off:]
+		if e := bytes.Index(blk, []byte("\n\n")); e >= 0 {
+			blk = blk[:e]
+			off += e + 2
+		} else {
+			off = len(all)
+		}
+		if !bytes.HasPrefix(blk, head) {
 			continue
 		}
 		st := blk[len(head):]
-		if strings.HasPrefix(st, "sync.Mutex.Lock") || strings.HasPrefix(st, "sync.RWMutex.") {
-			// drop the header line: it contains the waiting time
-			if i := strings.IndexByte(blk, '\n'); i >= 0 {
-				return blk[i+1:]
-			}
+		if !bytes.HasPrefix(st, []byte("sync.Mutex.Lock")) && !bytes.HasPrefix(st, []byte("sync.RWMutex.")) {
+			return false, 0, nil
 		}
-		return ""
+		i := bytes.IndexByte(blk, '\n')
+		if i < 0 {
+			return false, 0, nil
+		}
+		body := blk[i+1:]
+		h := uint64(0xcbf29ce484222325)
+		for _, c := range body {
+			h = (h ^ uint64(c)) * 0x100000001b3
+		}
+		return true, h, body
 	}
-	return ""
+	return false, 0, nil
 }
 
 // libFrame returns the innermost library function in a stack text.
